@@ -99,29 +99,52 @@ def eval_cases(cases, tag):
 
 
 def instrument_watcher():
-    """Mechanism S (light): the CURRENT session_manager.go with ONE test hook in the watcher of background(),
-    right after the sm.Unlock() that ends the critical section of the rebuild dial (nil except in the scenario
-    storerace).  If pool.session.Store(session) stands after that Unlock the hook sits between the two
-    (stored=false), otherwise after the Unlock that follows the Store (stored=true).  Nothing is written to
-    /repo: the copy goes into the overlay."""
+    """Mechanism S (light): the CURRENT session_manager.go with ONE test hook in the watcher, right after the
+    <recv>.Unlock() that ends the critical section of the rebuild dial (nil except in the scenario storerace).
+    If <pool>.session.Store(...) stands after that Unlock the hook sits between the two (stored=false),
+    otherwise after the Unlock that follows the Store (stored=true).  The anchor is structural: the statement
+    with the newClientSession call, the <x>.session.Store(...) statement after it, the Unlock statements at
+    the indentation of the dial; receiver, id, pool and error variable are read from those statements.
+    Nothing is written to /repo: the copy goes into the overlay.  Returns (path, None) or (None, reason)."""
     src = open(os.path.join(core.REPO, "session_manager.go")).read()
     lines = src.split("\n")
-    idial = next((i for i, l in enumerate(lines) if "newClientSession(id, sm.epoch" in l and ":=" in l), -1)
+    idial = next((i for i, l in enumerate(lines) if re.search(r"[:]?=\s*newClientSession\(", l) and not l.lstrip().startswith("//")
+                  and re.match(r"\s*\w+\s*,\s*\w+\s*:?=", l) and i > 0 and "hParams" not in l
+                  and any("go func(" in x for x in lines[max(0, i - 80):i])), -1)
     if idial < 0:
-        return None, "cannot find the rebuild dial `session, err := newClientSession(id, sm.epoch, ...)` in background()"
-    ind = lines[idial][:len(lines[idial]) - len(lines[idial].lstrip())]
-    istore = next((i for i in range(idial, min(idial + 40, len(lines))) if lines[i].strip() == "pool.session.Store(session)"), -1)
+        return None, "the rebuild dial `<s>, <err> := newClientSession(<id>, ...)` of the watcher was not found"
+    dl = lines[idial]
+    ind = dl[:len(dl) - len(dl.lstrip())]
+    m = re.match(r"\s*(\w+)\s*,\s*(\w+)\s*:?=\s*newClientSession\(\s*(\w+)\s*,", dl)
+    if not m:
+        return None, "the rebuild dial statement has an unexpected form: " + dl.strip()
+    errv, idv = m.group(2), m.group(3)
+    istore, poolv = -1, None
+    for i in range(idial + 1, min(idial + 40, len(lines))):
+        ms = re.match(r"\s*(\w+)\.session\.Store\(", lines[i])
+        if ms and lines[i].startswith(ind) and not lines[i][len(ind):].startswith(("\t", " ")):
+            istore, poolv = i, ms.group(1)
+            break
     if istore < 0:
-        return None, "cannot find `pool.session.Store(session)` after the rebuild dial in background()"
-    unl = [i for i in range(idial + 1, istore) if lines[i] == ind + "sm.Unlock()"]
+        return None, "no `<pool>.session.Store(...)` statement follows the rebuild dial in its statement list"
+    mr = None
+    for i in range(idial, -1, -1):
+        mr = re.match(r"func \((\w+) \*SessionManager\)", lines[i])
+        if mr:
+            break
+    if not mr:
+        return None, "the method that holds the watcher was not found"
+    recv = mr.group(1)
+    unlock = ind + recv + ".Unlock()"
+    unl = [i for i in range(idial + 1, istore) if lines[i].rstrip() == unlock]
     if unl:
         at = unl[-1]
-        hook = ind + "if err == nil && vhookC17AfterDialUnlock != nil {\n" + ind + "\tvhookC17AfterDialUnlock(sm, id, pool, false)\n" + ind + "}"
+        hook = (ind + "if %s == nil && vhookC17AfterDialUnlock != nil {\n" % errv + ind + "\tvhookC17AfterDialUnlock(%s, %s, %s, false)\n" % (recv, idv, poolv) + ind + "}")
     else:
-        at = next((i for i in range(istore + 1, min(istore + 10, len(lines))) if lines[i] == ind + "sm.Unlock()"), -1)
+        at = next((i for i in range(istore + 1, min(istore + 10, len(lines))) if lines[i].rstrip() == unlock), -1)
         if at < 0:
-            return None, "cannot find the sm.Unlock() that ends the critical section of the rebuild dial in background()"
-        hook = ind + "if vhookC17AfterDialUnlock != nil {\n" + ind + "\tvhookC17AfterDialUnlock(sm, id, pool, true)\n" + ind + "}"
+            return None, "the %s.Unlock() that ends the critical section of the rebuild dial was not found" % recv
+        hook = (ind + "if vhookC17AfterDialUnlock != nil {\n" + ind + "\tvhookC17AfterDialUnlock(%s, %s, %s, true)\n" % (recv, idv, poolv) + ind + "}")
     out = "\n".join(lines[:at + 1] + [hook] + lines[at + 1:])
     path = os.path.join(core.WORK, "c17_sm_instr_%d.go" % os.getpid())
     with open(path, "w") as fh:
@@ -132,14 +155,16 @@ def instrument_watcher():
 def run_harness(rounds, seed, tag):
     outp = os.path.join(core.WORK, "c17_%s_%d.jsonl" % (tag, os.getpid()))
     ipath, ierr = instrument_watcher()
-    if ierr:
-        return None, "S: " + ierr, 0.0
+    HOOK["anchor_missing"] = ierr
     try:
-        rc, out, secs = core.go_test(PROP, "^TestVerif_C17$", {"VERIF_OUT": outp, "VERIF_N": str(rounds), "VERIF_SEED": str(seed)},
-                                     timeout=900, extra_replace={os.path.join(core.REPO, "session_manager.go"): ipath})
+        # anchor not found: the harness runs on the plain source, the scenario storerace then has no hook
+        rc, out, secs = core.go_test(PROP, "^TestVerif_C17$", {"VERIF_OUT": outp, "VERIF_N": str(rounds), "VERIF_SEED": str(seed),
+                                                              "VERIF_C17_NOHOOK": "1" if ierr else ""},
+                                     timeout=900, extra_replace=({os.path.join(core.REPO, "session_manager.go"): ipath} if ipath else None))
     finally:
         try:
-            os.unlink(ipath)
+            if ipath:
+                os.unlink(ipath)
         except OSError:
             pass
     if rc != 0 or not os.path.exists(outp):
@@ -154,8 +179,9 @@ def run_harness(rounds, seed, tag):
         else:
             cases.append(r)
     SHAPE["last"] = shape
-    early = bool(shape) and not (shape.get("check_after_timer") and shape.get("check_in_lock_with_dial"))
-    late = bool(shape) and bool(shape.get("store_after_unlock"))
+    # model variant: only what was positively read as different; an unreadable fact keeps the code's order
+    early = bool(shape) and (shape.get("check_after_timer") is False or shape.get("check_in_lock_with_dial") is False)
+    late = bool(shape) and shape.get("store_after_unlock") is True
     for c in cases:
         c["_early"] = early
         c["_late"] = late
@@ -163,6 +189,7 @@ def run_harness(rounds, seed, tag):
 
 
 SHAPE = {"last": None}
+HOOK = {"anchor_missing": None}
 
 # what Model/Rebuild.v assumes about the order of statements in session_manager.go
 SHAPE_EXPECTED = {
@@ -185,11 +212,20 @@ def brief(c, around=None):
     return d
 
 
+def setup_failures(cases):
+    """Scenarios that could not be set up (a handshake timing out on a loaded machine ...): they say nothing
+    about the property and are not oracle failures."""
+    return ["%s: %s" % (c.get("id"), m.partition(" | ")[2].strip()) for c in cases for m in (c.get("oracle") or [])
+            if m.partition(" | ")[0].strip().endswith(":harness-setup")]
+
+
 def oracle_failures(cases):
     res = []
     for c in cases:
         for m in c.get("oracle") or []:
             sig, _, what = m.partition(" | ")
+            if sig.strip().endswith(":harness-setup"):
+                continue
             res.append({"signature": sig.strip(), "what": "%s: %s" % (c["id"], what.strip()), "case": brief(c)})
     return res
 
@@ -207,16 +243,28 @@ def check(run):
     shape = SHAPE["last"]
     if not err:
         if not shape or not shape.get("found"):
-            run.add_corr_break("G: the shape of SessionManager.background()/Close could not be read from the source: %s" % ((shape or {}).get("err"),), shape=True)
+            run.add_corr_break("G: the shape of the watcher / of SessionManager.Close could not be read from the source: %s" % ((shape or {}).get("err"),), shape=True)
         else:
             for k, what in SHAPE_EXPECTED.items():
-                if bool(shape.get(k)) != (k != "store_after_unlock"):
-                    run.add_corr_break("G: the source no longer has the shape the model assumes — " + what, {"shape": shape})
-    if any((c.get("notes") or {}).get("hook") for c in cases):
-        run.add_corr_break("S: the hook compiled into the watcher of background() never ran: the scenario storerace was not executed")
+                want = (k != "store_after_unlock")
+                got = shape.get(k)
+                if got is None:
+                    run.add_corr_break("G: could not be read from the source — " + what, {"shape": shape}, shape=True)
+                elif bool(got) != want:
+                    run.add_corr_break("G: the source positively has another order than the model assumes — " + what, {"shape": shape})
+        if HOOK["anchor_missing"]:
+            run.add_corr_break("S: the anchor of the test hook in the watcher was not found (%s); the scenario storerace ran without its hook" % HOOK["anchor_missing"], shape=True)
+    if not HOOK["anchor_missing"] and any((c.get("notes") or {}).get("hook") for c in cases):
+        run.add_corr_break("S: the hook compiled into the watcher never ran: the scenario storerace was not executed", shape=True)
+    sf = setup_failures(cases)
+    if sf:
+        run.coverage["scenarios_not_set_up"] = sf
+        if 2 * len(sf) > len(cases):
+            run.add_corr_break("T: most scenarios could not be set up: " + "; ".join(sf[:4]))
     for f in oracle_failures(cases):
         run.add_oracle_failure(f["signature"], f["what"], f["case"])
-    model_cases = [c for c in cases if not c.get("skip_model") and not c.get("ambiguous") and c.get("hist")]
+    model_cases = [c for c in cases if not c.get("skip_model") and not c.get("ambiguous") and c.get("hist")
+                   and not any(m.partition(" | ")[0].strip().endswith(":harness-setup") for m in (c.get("oracle") or []))]
     ambiguous = [c["id"] for c in cases if c.get("ambiguous")]
     counters = []
     if model_cases:
